@@ -506,7 +506,69 @@ def gen_index(S, info):
     return '\n'.join(out)
 
 
-SECTIONS = [('Lut', gen_lut), ('Index', gen_index), ('Writers', gen_writers), ('Api', gen_api), ('Memo', gen_memo), ('Manip', gen_manip)]
+def gen_formats(S, info):
+    """reader map, shared extensions, and the angular-momentum letter convention each writer / reader module uses"""
+    rm = S.assign('readers/read.py', '_reader_map')
+    if not isinstance(rm, ast.Dict):
+        raise GenError('_reader_map is not a dict literal')
+    rimports = {}
+    for n in S.tree('readers/read.py').body:
+        if isinstance(n, ast.ImportFrom) and n.level == 1:
+            for al in n.names:
+                rimports[al.asname or al.name] = n.module
+    wimports = {}
+    for n in S.tree('writers/write.py').body:
+        if isinstance(n, ast.ImportFrom) and n.level == 1:
+            for al in n.names:
+                wimports[al.asname or al.name] = n.module
+
+    def hij_calls(rel, fname):
+        try:
+            t = S.tree(rel)
+        except GenError:
+            return []
+        res = []
+        for n in ast.walk(t):
+            if isinstance(n, ast.Call) and ast.unparse(n.func) == 'lut.' + fname:
+                h = False
+                for k in n.keywords:
+                    if k.arg == 'hij':
+                        h = lit(k.value, 'hij=')
+                if len(n.args) > 1:
+                    h = lit(n.args[1], 'hij positional')
+                res.append((n.lineno, bool(h)))
+        return [h for _, h in sorted(res)]
+    readers = []
+    for k, v in zip(rm.keys, rm.values):
+        fmt = lit(k)
+        d = {lit(kk): vv for kk, vv in zip(v.keys, v.values)}
+        fn = ast.unparse(d['reader'])
+        mod = rimports.get(fn)
+        if mod is None:
+            raise GenError('reader function %s not imported in readers/read.py' % fn)
+        readers.append((fmt, lit(d['extension']), hij_calls('readers/%s.py' % mod, 'amchar_to_int')))
+    wm = S.assign('writers/write.py', '_writer_map')
+    writers = []
+    for k, v in zip(wm.keys, wm.values):
+        fmt = lit(k)
+        d = {lit(kk): vv for kk, vv in zip(v.keys, v.values)}
+        mod = wimports.get(ast.unparse(d['function']))
+        writers.append((fmt, lit(d['extension']), hij_calls('writers/%s.py' % mod, 'amint_to_char')))
+    info['reader_formats'] = len(readers)
+    out = ['/-! generated from readers/read.py, writers/write.py and the reader / writer modules — do not edit -/', 'namespace BSE.Gen.Formats', '',
+           '/-- (format, extension, `hij` argument of every `lut.amchar_to_int` call of the reader module, in source order) -/',
+           'def readers : List (String × String × List Bool) := [']
+    out.append(',\n'.join('  (%s, %s, %s)' % (lstr(f), lstr(e), lean(h)) for f, e, h in readers))
+    out.append(']')
+    out.append('/-- (format, extension, `hij` argument of every `lut.amint_to_char` call of the writer module, in source order) -/')
+    out.append('def writers : List (String × String × List Bool) := [')
+    out.append(',\n'.join('  (%s, %s, %s)' % (lstr(f), lstr(e), lean(h)) for f, e, h in writers))
+    out.append(']')
+    out += ['', 'end BSE.Gen.Formats', '']
+    return '\n'.join(out)
+
+
+SECTIONS = [('Lut', gen_lut), ('Formats', gen_formats), ('Index', gen_index), ('Writers', gen_writers), ('Api', gen_api), ('Memo', gen_memo), ('Manip', gen_manip)]
 
 
 def run(repo, outdir):
